@@ -20,6 +20,28 @@ def run():
             leaked += 1
             ck.reject("C07:leaked-error-object:" + tag.split(":")[0], f"{r['src']!r}: a raised error object is stored inside a value: {r['observed']}",
                       {"src": r["src"], "observed": r["observed"]})
+    # a raise inside an iterator body after its yield (PanIter, body "raisingrecur"): the next / the walk that meets it raises, nothing is yielded
+    from pvlib import run_tlc, run_cases, payloads
+    from checks import c14
+    t = run_tlc("MC_C14", defines={"Body": '"raisingrecur"', "MaxOps": "3", "Lim": str(c14.LIM)}, timeout_s=600)
+    if t.violation:
+        raise pvlib.Broken("PanIter property violated in the model (raisingrecur): " + t.violation)
+    ck.add_tlc(t, "MC_C14 raisingrecur MaxOps=3")
+    icases = payloads(t, "CASE ")
+    ireqs, iexp = [], []
+    for i, c in enumerate(icases):
+        src, expect = c14.program(c)
+        ireqs.append({"id": f"i{i}", "src": src, "fuel": 20000, "deadline_ms": 3000})
+        iexp.append(expect)
+    iout = run_cases(ireqs, label="C07 iterator bodies")
+    for i, c in enumerate(icases):
+        ev = iout[f"i{i}"]["events"]
+        for k, ((what, want), got) in enumerate(zip(iexp[i], ev + ["<missing>"] * len(iexp[i]))):
+            if got != want:
+                ck.reject(f"C07:iterator-body:{what.split('.')[-1].lstrip('xy')}", f"{ireqs[i]['src']!r}: observation {k + 1} ({what}) is {got}, PanIter gives {want}",
+                          {"src": ireqs[i]["src"], "observed": got, "expected": want})
+                break
+    ck.cov["iterator_body_histories"] = len(icases)
     reached = sum(1 for r in res.values() if r["status"] == "ok" and "out:70" in r["observed"]["ev"] and "out:71" not in r["observed"]["ev"])
     ck.cov["evaluations"] = len(fam)
     ck.cov["distinct_nontrivial"] = reached
@@ -28,7 +50,7 @@ def run():
     ck.cov["rule"] = (f"{len(evalfam.HOSTS)} host constructs (operands, elements, *spread, pair values, range bounds, positional / keyword / **arguments, keyword "
                       "defaults, receiver, callee, condition/branches, embedded-string parts, assignment, index, literal call, jump guard, nesting) x every child "
                       "position x raise kinds (Err.new, 1/0, undefined name, missing property) x nesting (top, function, method, literal call, function with "
-                      "defer) x handler (none, try, thoughtful chain); non-trivial = accepted runs in which the statement was entered (marker 70) and did "
+                      "defer) x handler (none, try, thoughtful chain); histories of 3 operations over an iterator whose recur argument raises after the yield (PanIter); non-trivial = accepted runs in which the statement was entered (marker 70) and did "
                       "not complete (no marker 71)")
     ck.assumptions = ["list/reduce chain positions are covered by C04's chain machine", "conversion hooks (B, S, ==) are never the raise site"]
     if st["ok"] + st["mismatch"] < len(fam) * 0.9:
